@@ -366,11 +366,43 @@ theorem getitem_some (d : Deque) (E : Externals) (now : Int) (i : Int) (r : Row)
 def pushed (d : Deque) (E : Externals) (now : Int) (v : PyVal) (left : Bool) : Cache :=
   (d.cache.tbegin.push E now v none (!left) none false .null).1
 
-theorem append_cache (d : Deque) (E : Externals) (now : Int) (v : PyVal) (left : Bool) :
+/-- the result of the push of `append` -/
+def pushOut (d : Deque) (E : Externals) (now : Int) (v : PyVal) (left : Bool) : Out :=
+  (d.cache.tbegin.push E now v none (!left) none false .null).2
+
+theorem append_eq (d : Deque) (E : Externals) (now : Int) (v : PyVal) (left : Bool) :
+    d.append E now v left =
+      match pushOut d E now v left with
+      | .exc e => ({ d with cache := (pushed d E now v left).traise 1 }, .exc e)
+      | _ => ({ d with cache := (if d.tooLong (pushed d E now v left) then
+                ((pushed d E now v left).pull E now none (!left) false false).1
+               else pushed d E now v left).tend }, .none) := rfl
+
+/-- `append` whose push did not raise (it returns the new key) -/
+theorem append_cache (d : Deque) (E : Externals) (now : Int) (v : PyVal) (left : Bool)
+    (k : PyVal) (hk : pushOut d E now v left = .val k) :
     (d.append E now v left).1.cache =
       (if d.tooLong (pushed d E now v left) then
         ((pushed d E now v left).pull E now none (!left) false false).1
-       else pushed d E now v left).tend := rfl
+       else pushed d E now v left).tend := by
+  rw [append_eq, hk]
+
+theorem append_out (d : Deque) (E : Externals) (now : Int) (v : PyVal) (left : Bool)
+    (k : PyVal) (hk : pushOut d E now v left = .val k) : (d.append E now v left).2 = .none := by
+  rw [append_eq, hk]
+
+/-- `append` whose push raised: the block is rolled back, the exception propagates -/
+theorem append_exc (d : Deque) (E : Externals) (now : Int) (v : PyVal) (left : Bool)
+    (e : String) (he : pushOut d E now v left = .exc e) :
+    (d.append E now v left).1 = { d with cache := (pushed d E now v left).traise 1 } ∧
+    (d.append E now v left).2 = .exc e := by
+  rw [append_eq, he]
+  exact ⟨rfl, rfl⟩
+
+theorem append_maxlen (d : Deque) (E : Externals) (now : Int) (v : PyVal) (left : Bool) :
+    (d.append E now v left).1.maxlen = d.maxlen := by
+  rw [append_eq]
+  split <;> rfl
 
 theorem pushed_spec (d : Deque) (E : Externals) (now : Int) (v : PyVal) (left : Bool)
     (inv : TableInv d.cache) (pol : d.cache.cfg.policy = .none)
@@ -410,5 +442,20 @@ theorem pushed_spec (d : Deque) (E : Externals) (now : Int) (v : PyVal) (left : 
   · intro f ct hf
     rw [tbegin_files] at hl
     exact fileGet_append hl hf
+
+/-- under the hypotheses of `pushed_spec` the push does not raise: it returns the new key -/
+theorem pushed_out (d : Deque) (E : Externals) (now : Int) (v : PyVal) (left : Bool)
+    (inv : TableInv d.cache) (pol : d.cache.cfg.policy = .none)
+    (noexp : ∀ r ∈ d.cache.rows, r.expT = none) (qok : QueueOk d.cache none) (room : Room d.cache none)
+    (origin : OriginOk d.cache) {s1 : Cache} {c : Cols}
+    (hst : d.cache.tbegin.store E v false = .ok (s1, c)) (hcb : c.bindable = true) :
+    ∃ k, pushOut d E now v left = .val k := by
+  obtain ⟨r, h1, -⟩ := pushed_spec d E now v left inv pol noexp qok room origin hst hcb
+  rcases push_cases d.cache.tbegin E now v none (!left) none .null with h | ⟨_, _, num, _, _, _, _, _, _, _, ho⟩
+  · have h1' : (d.cache.tbegin.push E now v none (!left) none false .null).1.rows = d.cache.rows ++ [r] := h1
+    rw [h, tbegin_rows] at h1'
+    have := congrArg List.length h1'
+    simp at this
+  · exact ⟨_, ho⟩
 
 end DC.Deque
